@@ -263,4 +263,210 @@ theorem loop_all_none (u : Bool) : ∀ (hs : List TExpr) (f : Bool), (∀ h ∈ 
     rw [ih true (fun x hx => hn x (List.mem_cons_of_mem _ hx))]
     simp
 
+/-! ### pairs of renderings -/
+
+/-- related, and each well-formed in its spelling -/
+def RelW (T B : TExpr) : Prop := Rel T B ∧ wfU T = true ∧ spineOK T = true ∧ wfB B = true
+
+/-- member by member -/
+inductive All2 : List TExpr → List TExpr → Prop
+  | nil : All2 [] []
+  | cons {t b : TExpr} {ts bs : List TExpr} : RelW t b → All2 ts bs → All2 (t :: ts) (b :: bs)
+
+theorem kids_sem {Ts Bs : List TExpr} (h : All2 Ts Bs) :
+    dd (altsL Ts) = dd (altsL Bs) ∧ hasNoneL Ts = hasNoneL Bs := by
+  induction h with
+  | nil => exact ⟨rfl, rfl⟩
+  | cons hab _ ih =>
+    simp only [altsL, hasNoneL]
+    exact ⟨dd_append_congr hab.1.hA ih.1, by rw [hab.1.hN, ih.2]⟩
+
+theorem forall2_left {Ts Bs : List TExpr} (h : All2 Ts Bs) : ∀ t ∈ Ts, ∃ b ∈ Bs, RelW t b := by
+  induction h with
+  | nil => intro t ht; cases ht
+  | cons hab _ ih =>
+    intro t ht
+    rcases List.mem_cons.mp ht with rfl | ht
+    · exact ⟨_, List.mem_cons_self .., hab⟩
+    · obtain ⟨b, hb, hr⟩ := ih t ht
+      exact ⟨b, List.mem_cons_of_mem _ hb, hr⟩
+
+theorem forall2_right {Ts Bs : List TExpr} (h : All2 Ts Bs) : ∀ b ∈ Bs, ∃ t ∈ Ts, RelW t b := by
+  induction h with
+  | nil => intro t ht; cases ht
+  | cons hab _ ih =>
+    intro b hb
+    rcases List.mem_cons.mp hb with rfl | hb
+    · exact ⟨_, List.mem_cons_self .., hab⟩
+    · obtain ⟨t, ht, hr⟩ := ih b hb
+      exact ⟨t, List.mem_cons_of_mem _ ht, hr⟩
+
+theorem forall2_length {Ts Bs : List TExpr} (h : All2 Ts Bs) : Ts.length = Bs.length := by
+  induction h with
+  | nil => rfl
+  | cons _ _ ih => simp [ih]
+
+/-! ### small facts about texts -/
+
+theorem isAnyE_of_mem {e : TExpr} {c : Char} (hc : c ∈ print e) (hn : c ∉ sAny) : isAnyE e = false := by
+  simp only [isAnyE, beq_eq_false_iff_ne]
+  intro h; rw [h] at hc; exact hn hc
+
+theorem isAnyE_app (h : Str) (args : List TExpr) : isAnyE (.app h args) = false :=
+  isAnyE_of_mem (c := '[') (by rw [print_app]; simp) (by simp [sAny])
+
+theorem isAnyE_bor (args : List TExpr) (hw : wfB (.bor args) = true) : isAnyE (.bor args) = false :=
+  isAnyE_of_mem (print_bor_has_pipe args hw) (by simp [sAny])
+
+theorem isAnyE_none : isAnyE eNone = false := by decide
+
+/-- a subscription other than `Optional[…]`/`Union[…]` is one alternative, fixed by the denotations of its arguments -/
+theorem rel_app (n : Str) (argsT argsB : List TExpr) (hn1 : n ≠ sOptional) (hn2 : n ≠ sUnion)
+    (hd : denoteL argsT = denoteL argsB) : Rel (.app n argsT) (.app n argsB) := by
+  refine ⟨?_, ?_, rfl, ?_⟩
+  · simp only [alts, hn1, hn2, or_self, if_false, hd]
+  · simp only [hasNone, hn1, hn2, if_false]
+  · rw [isAnyE_app, isAnyE_app]
+
+theorem denoteL_one (x : TExpr) : denoteL [x] = [denote x] := by simp [denoteL, Dcg.Sem.Typing.denote]
+theorem denoteL_two (x y : TExpr) : denoteL [x, y] = [denote x, denote y] := by simp [denoteL, Dcg.Sem.Typing.denote]
+
+theorem denote_congr {T B : TExpr} (hA : dd (alts T) = dd (alts B)) (hN : hasNone T = hasNone B) : denote T = denote B := by
+  unfold Dcg.Sem.Typing.denote
+  rw [hN]; exact mkTy_congr _ hA
+
+theorem names_not_ou (o : Opts) : listName o ≠ sOptional ∧ listName o ≠ sUnion ∧ setName o ≠ sOptional ∧ setName o ≠ sUnion ∧
+    dictName o ≠ sOptional ∧ dictName o ≠ sUnion := by
+  obtain ⟨u, s, g⟩ := o
+  cases u <;> cases s <;> cases g <;> decide
+
+theorem cont_shape (o : Opts) (a : Attrs) (keyE : Option TExpr) (b : TExpr) (hne : print b ≠ []) :
+    containerE o a keyE b =
+      if a.isList then .app (listName o) [b] else if a.isSet then .app (setName o) [b]
+      else if a.isDict then .app (dictName o) [keyE.getD (.atom sStr), b] else b := by
+  unfold containerE
+  simp [wrap1E, hne]
+
+/-! ### the optional wrapper -/
+
+theorem optT (c : TExpr) (hw : wfU c = true) (hs : spineOK c = true) :
+    getOptionalE false c = if isNoneE c then eNone else .app sOptional [c] := by
+  unfold getOptionalE
+  have hwb := wfB_of_wfU c hw
+  simp only [rmE, Bool.false_eq_true, if_false, rmU_id c hs, print_ne_nil_of_wfB c hwb, false_or]
+  by_cases hn : isNoneE c = true
+  · rw [if_pos ((print_none_iff c hwb).mpr hn), if_pos hn]
+  · rw [if_neg (fun hc => hn ((print_none_iff c hwb).mp hc)), if_neg hn]
+
+theorem rmB_none_iff (c : TExpr) (hw : wfB c = true) : print (rmB c) = sNone ↔ isNoneE c = true := by
+  constructor
+  · intro hp
+    cases hq : isNoneE c with
+    | true => rfl
+    | false =>
+      have hok := okD_rmB c hw hq
+      have h1 := (print_none_iff _ hok.1).mp hp
+      exfalso
+      have h2 := hok.2
+      cases hr : rmB c with
+      | atom s => rw [hr] at h1 h2; simp [noTop, isNoneE] at h1 h2; exact h2 h1
+      | app h args => rw [hr] at h1; simp [isNoneE] at h1
+      | bor args => rw [hr] at h1; simp [isNoneE] at h1
+  · intro hn
+    cases c with
+    | atom s => simp only [isNoneE, decide_eq_true_eq] at hn; simp [rmB, print_atom, hn]
+    | app h args => simp [isNoneE] at hn
+    | bor args => simp [isNoneE] at hn
+
+theorem optB (c : TExpr) (hw : wfB c = true) :
+    getOptionalE true c = if isNoneE c then eNone else borFlat [rmB c, eNone] := by
+  unfold getOptionalE
+  simp only [rmE, if_true, print_ne_nil_of_wfB _ (wfB_rmB c hw), false_or]
+  by_cases hn : isNoneE c = true
+  · rw [if_pos ((rmB_none_iff c hw).mpr hn), if_pos hn]
+  · rw [if_neg (fun hc => hn ((rmB_none_iff c hw).mp hc)), if_neg hn]
+
+theorem hne_T (c : TExpr) (hw : wfU c = true) (hs : spineOK c = true) :
+    alts c ≠ [] → print (rmE false c) ≠ [] ∧ print (rmE false c) ≠ sNone := by
+  intro ha
+  have hwb := wfB_of_wfU c hw
+  simp only [rmE, Bool.false_eq_true, if_false, rmU_id c hs]
+  exact ⟨print_ne_nil_of_wfB c hwb, fun hc => ha (alts_isNoneE c ((print_none_iff c hwb).mp hc))⟩
+
+theorem hne_B (c : TExpr) (hw : wfB c = true) :
+    alts c ≠ [] → print (rmE true c) ≠ [] ∧ print (rmE true c) ≠ sNone := by
+  intro ha
+  simp only [rmE, if_true]
+  exact ⟨print_ne_nil_of_wfB _ (wfB_rmB c hw), fun hc => ha (alts_isNoneE c ((rmB_none_iff c hw).mp hc))⟩
+
+theorem any_atom (c : TExpr) (hw : wfB c = true) (h : isAnyE c = true) : c = .atom sAny := by
+  simp only [isAnyE, beq_iff_eq] at h
+  exact print_inj_wfB c hw (.atom sAny) (by decide) (by rw [h, print_atom])
+
+/-- the end of `type_hint` (`if self.is_optional and type_ != ANY: get_optional_type`) keeps the relation -/
+theorem fin_rel (cT cB : TExpr) (fT fB : Bool)
+    (hA : dd (alts cT) = dd (alts cB)) (hF : (hasNone cT || fT) = (hasNone cB || fB))
+    (hNone : isNoneE cT = isNoneE cB) (hAny : isAnyE cT = isAnyE cB)
+    (hwT : wfU cT = true) (hsT : spineOK cT = true) (hwB : wfB cB = true) :
+    Rel (finishE false cT fT).1 (finishE true cB fB).1 ∧ spineOK (finishE false cT fT).1 = true := by
+  have hwTB := wfB_of_wfU cT hwT
+  cases hany : isAnyE cT with
+  | true =>
+    -- `Any`: never wrapped
+    have hanyB : isAnyE cB = true := by rw [← hAny, hany]
+    have eT := any_atom cT hwTB hany
+    have eB := any_atom cB hwB hanyB
+    subst eT; subst eB
+    have : print (TExpr.atom sAny) = sAny := print_atom _
+    simp only [finishE, this, ne_eq, not_true_eq_false, and_false, if_false]
+    exact ⟨Rel.refl _, rfl⟩
+  | false =>
+    have hanyB : isAnyE cB = false := by rw [← hAny, hany]
+    have hpT : print cT ≠ sAny := by simpa [isAnyE] using hany
+    have hpB : print cB ≠ sAny := by simpa [isAnyE] using hanyB
+    simp only [finishE, hpT, hpB, ne_eq, not_false_eq_true, and_true]
+    obtain ⟨a1, n1⟩ := alts_getOptionalE false cT (hne_T cT hwT hsT)
+    obtain ⟨a2, n2⟩ := alts_getOptionalE true cB (hne_B cB hwB)
+    have hshT := optT cT hwT hsT
+    have hshB := optB cB hwB
+    -- what the wrapped forms look like
+    have hwrapT : isNoneE (getOptionalE false cT) = isNoneE cT ∧ isAnyE (getOptionalE false cT) = false ∧
+        spineOK (getOptionalE false cT) = true := by
+      rw [hshT]
+      cases hq : isNoneE cT with
+      | true => simp only [if_true]; exact ⟨by decide, isAnyE_none, rfl⟩
+      | false =>
+        simp only [Bool.false_eq_true, if_false]
+        refine ⟨rfl, isAnyE_app _ _, ?_⟩
+        have : sOptional ≠ sUnion := by decide
+        simp [spineOK, this]
+    have hwrapB : isNoneE (getOptionalE true cB) = isNoneE cB ∧ isAnyE (getOptionalE true cB) = false := by
+      rw [hshB]
+      cases hq : isNoneE cB with
+      | true => simp only [if_true]; exact ⟨by decide, isAnyE_none⟩
+      | false =>
+        simp only [Bool.false_eq_true, if_false]
+        have hok := okD_rmB cB hwB hq
+        have hwf := wfB_borFlat_none _ hok
+        have hpipe : '|' ∈ print (borFlat [rmB cB, eNone]) := by
+          rw [print_borFlat_none _ hok.1]; simp [sPipe]
+        refine ⟨?_, isAnyE_of_mem hpipe (by simp [sAny])⟩
+        cases hq2 : isNoneE (borFlat [rmB cB, eNone]) with
+        | false => rfl
+        | true =>
+          have := (print_none_iff _ hwf).mpr hq2
+          rw [this] at hpipe; simp [sNone] at hpipe
+    cases fT <;> cases fB
+    · simp only [Bool.false_eq_true, if_false, Bool.or_false] at hF ⊢
+      exact ⟨⟨hA, hF, hNone, hAny⟩, hsT⟩
+    · simp only [Bool.false_eq_true, if_false, if_true, Bool.or_false, Bool.or_true] at hF ⊢
+      exact ⟨⟨by rw [a2]; exact hA, by rw [n2]; exact hF, by rw [hwrapB.1]; exact hNone,
+        by rw [hwrapB.2]; exact hany⟩, hsT⟩
+    · simp only [Bool.false_eq_true, if_false, if_true, Bool.or_false, Bool.or_true] at hF ⊢
+      exact ⟨⟨by rw [a1]; exact hA, by rw [n1]; exact hF, by rw [hwrapT.1]; exact hNone,
+        by rw [hwrapT.2.1]; exact hanyB.symm⟩, hwrapT.2.2⟩
+    · simp only [if_true]
+      exact ⟨⟨by rw [a1, a2]; exact hA, by rw [n1, n2], by rw [hwrapT.1, hwrapB.1]; exact hNone,
+        by rw [hwrapT.2.1, hwrapB.2]⟩, hwrapT.2.2⟩
+
 end Dcg.Proofs.SpellOp
